@@ -54,6 +54,9 @@ type FK struct {
 	RefTable           string
 	RefCols            []string
 	OnUpdate, OnDelete string
+	// ImplicitCols: the referenced columns are not listed (REFERENCES parent): they are the
+	// parent's primary key. Foreign DDL only.
+	ImplicitCols bool
 }
 
 // Tbl is a table.
@@ -70,6 +73,8 @@ type Tbl struct {
 	// LowerKW: this table's DDL spells its keywords in lower case (a database written by hand or by
 	// another tool). Only the foreign-DDL start databases use it.
 	LowerKW bool
+	// BareExpr: expression index parts are written without their own parentheses (foreign DDL only).
+	BareExpr bool
 }
 
 // Sch is a schema.
@@ -191,7 +196,10 @@ func (t *Tbl) DDL() []string {
 		if f.Name != "" {
 			d = k("CONSTRAINT ") + q(f.Name) + " "
 		}
-		d += k("FOREIGN KEY (") + qs(f.Cols) + k(") REFERENCES ") + q(f.RefTable) + " (" + qs(f.RefCols) + ")"
+		d += k("FOREIGN KEY (") + qs(f.Cols) + k(") REFERENCES ") + q(f.RefTable)
+		if !f.ImplicitCols {
+			d += " (" + qs(f.RefCols) + ")"
+		}
 		if f.OnUpdate != "" {
 			d += k(" ON UPDATE ") + f.OnUpdate
 		}
@@ -237,6 +245,9 @@ func (t *Tbl) DDL() []string {
 			s := q(p.Col)
 			if p.Expr != "" {
 				s = "(" + p.Expr + ")"
+				if t.BareExpr {
+					s = p.Expr // CREATE INDEX i ON t (lower(c)): the usual way to write it
+				}
 			}
 			if p.Desc {
 				s += k(" DESC")
